@@ -78,6 +78,19 @@ CHECKS = {
         'shared between obsolete and current terms, clashing ids, both ontology kinds, all query forms, identity of the returned object.',
         'Trusted: Coq kernel + vm_compute; dict modelled as association list with in-place overwrite; object identity rendered as list position.',
         '§4 C06'),
+    'C08': (
+        'Coq proof (aggregation structure of the loader over parsed lines; sums invariant under line order; kernel-float sweeps of the frequency arithmetic lifted by forallb_forall) + per-run vm_compute correspondence on rendered HPOA files',
+        'Machine-checked theorems for every list of parsed lines and loader configuration: exactly one disease per distinct database id; per disease exactly '
+        'one annotation per distinct aspect-P phenotype whose numerator / denominator are the sums of the per-line counts and whose references / modifiers '
+        'are the unions; aspect-I terms become the modes of inheritance, C/M ignored; 0 <= numerator, 0 < denominator; any rearrangement of the lines gives '
+        'the same diseases, the same lines per (disease, phenotype) up to order, hence the same sums. With kernel primitive floats: for EVERY cohort size '
+        '1..100000 each of the six HPO frequency terms gives round(frequency*cohort) in 0..cohort and inside the term\'s range scaled to the cohort (up to '
+        'rounding), and for cohort 1..2000 each percentage 0, 0.5, .., 100 lands within 1/2 of p*cohort/100. PARTIAL: larger cohorts and other percentages '
+        'are not proved. Correspondence: generated files (both header styles, all frequency forms, NOT/salvage, P/I/C/M, shuffled copies) compared with the '
+        'model incl. the Python type of the modes of inheritance; HPO_FREQUENCIES compared bit for bit.',
+        'Trusted: Coq kernel + vm_compute + primitive floats (PrimFloat/Uint63; no float axioms); Python round modelled as round-half-even; tab/; splitting '
+        'exercised only through rendered files. Two genuine defects fixed in /repo (fix: bfb4b0c frequency precedence, fix: ef03442 modes of inheritance as str).',
+        '§4 C08'),
     'C09': (
         'Coq proof (integer counts = number of present annotations at or below a term, one per annotation; monotone, order/excluded-independent; result keys incl. pseudocount; -log facts over R) + per-run correspondence (model counts evaluated in Coq, -log recomputed by the harness)',
         'Machine-checked theorems for every ontology graph built from an acyclic edge list, every corpus whose annotation ids are nodes, with or without a '
